@@ -80,7 +80,11 @@ class PyKbd:
         for code in self.palette:
             s = self.m._key_states[self.names[code]]
             st.append([code, int(s.pressed), int(s.debounced), s.press_ticks, s.release_ticks, s.repeat_ticks])
-        return {"ret": ret, "events": evs, "fifo": list(self.m.fifo_snapshot()), "states": st, "isr": -1, "kbirq": -1}
+        # the event queue as the handler reports it (what the emulator, the snapshot code and the tools read) on alternate steps,
+        # as the matrix reports it otherwise: one queue, two views
+        self.nproj = getattr(self, "nproj", 0) + 1
+        fifo = list(self.h.fifo_snapshot()) if self.nproj % 2 == 0 else list(self.m.fifo_snapshot())
+        return {"ret": ret, "events": evs, "fifo": fifo, "states": st, "isr": -1, "kbirq": -1}
 
     def do(self, a):
         ev = a["ev"]
